@@ -27,7 +27,7 @@ ASSUMPTIONS = ["conditioning block non-singular (the property's scope); toleranc
 EXHAUSTIVE = {"quick": False, "thorough": False}
 SOFT_LIMIT = {"quick": 240, "thorough": 1500}
 REQUIRED_FUNCS = ["sempler/normal_distribution.py:NormalDistribution.conditional", "sempler/normal_distribution.py:NormalDistribution.marginal",
-                  "sempler/normal_distribution.py:NormalDistribution.__init__", "sempler/utils.py:matrix_block"]
+                  "sempler/normal_distribution.py:NormalDistribution.__init__"]
 REQUIRED_COUNTERS = {"quick": {"judged:conditional": 10000, "judged:marginal": 3000, "error:overlap": 300, "error:size-mismatch": 300,
                                "error:ctor-mismatch": 100, "meta:cond-on-nothing": 300, "meta:marginal-compose": 300, "meta:two-step": 300,
                                "form:scalar-int": 300, "form:ndarray": 300, "form:range": 300, "form:range-descending-to-0": 100, "error:ctor-mismatch-scalar-forms": 300, "order:Y-not-increasing": 1000, "order:X-not-increasing": 1000},
